@@ -457,6 +457,14 @@ def _campaign(rng, tier, nspecs, nvals, opts, tag, with_clone, with_catalog=True
         for ty in tnames(k, rep):
             for word, nwords in ((0xFFFFFFFF, 16), (0xFFFFFFFF, 256), (1, 256), (2, 64)) + (((0xFFFFFFFF, 2048), (3, 1024)) if tier != "quick" else ()):
                 add(k, ty, 0, word.to_bytes(4, "big") * nwords, "nested")
+    # a count followed by zeros: W empty (or zero-valued) elements behind one count word — many instances of every nested counted
+    # position in one message, each holding nothing (a reservation made per instance from anything but the count shows as a total)
+    for k, rep in enumerate(loaded):
+        if batch.status.get(str(k)) != "ok":
+            continue
+        for ty in tnames(k, rep):
+            for w in (64, 1000):
+                add(k, ty, 0, w.to_bytes(4, "big") + bytes(4 * 1024 if w == 64 else 16 * 1024), "count-then-zeros")
     # the decidable hypotheses of the specification-level theorems, evaluated by the model on every specification
     flags = []
     for line in run_driver(["outputok " + t3.hx(t) for t in texts]):
